@@ -112,11 +112,14 @@ type trPInst struct {
 	DestNum  int64    `json:"destnum"`
 	Dests    []trPReg `json:"dests"`
 	Op       *string  `json:"op"`
+	OpType   int64    `json:"optype"`
+	VarType  int64    `json:"vartype"`
 	SrcNum   int64    `json:"srcnum"`
 	Srcs     []trPReg `json:"srcs"`
 	MemWidth int64    `json:"memwidth"`
 	Compress int64    `json:"compress"`
 	MemAddr  int64    `json:"memaddr"`
+	Addrs    []int64  `json:"addrs"`
 	Suffix1  int64    `json:"suffix1"`
 	Suffix2  []int64  `json:"suffix2"`
 	Imm      int64    `json:"imm"`
@@ -283,6 +286,14 @@ func trZs(vs []int64) string {
 	return "[" + strings.Join(s, ";") + "]"
 }
 
+func trZsNeg(vs []int64) string {
+	s := make([]string, len(vs))
+	for i, v := range vs {
+		s[i] = trZ(v)
+	}
+	return "[" + strings.Join(s, ";") + "]"
+}
+
 func trUs(vs []uint64) string {
 	s := make([]string, len(vs))
 	for i, v := range vs {
@@ -394,9 +405,9 @@ func trCoqObs(p *trParsed, crash bool) string {
 				if q.Op != nil {
 					op = "(Some " + trStr(*q.Op) + ")"
 				}
-				is[ii] = fmt.Sprintf("P %s %s %s %s %s %s %s %s %s %s %s %s %s %s %s", trDim(q.TB), trZ(q.Warp), trZ(q.PC), trZ(q.Mask),
+				is[ii] = fmt.Sprintf("P %s %s %s %s %s %s %s %s %s %s %s %s %s %s %s %s", trDim(q.TB), trZ(q.Warp), trZ(q.PC), trZ(q.Mask),
 					trZ(q.DestNum), trCoqRegs(q.Dests), op, trZ(q.SrcNum), trCoqRegs(q.Srcs), trZ(q.MemWidth), trZ(q.Compress),
-					trZ(q.MemAddr), trZ(q.Suffix1), trZs(q.Suffix2), trZ(q.Imm))
+					trZ(q.MemAddr), trZsNeg(q.Addrs), trZ(q.Suffix1), trZs(q.Suffix2), trZ(q.Imm))
 			}
 			ws[wi] = fmt.Sprintf("(%s,%s,[%s])", trZ(w.ID), trZ(w.Count), strings.Join(is, ";\n "))
 		}
@@ -468,11 +479,20 @@ func trReadBack(t *tracereader.KernelTrace) *trParsed {
 					PC: int64(in.PC), Mask: in.Mask, DestNum: int64(in.DestNum), Dests: trRegs(in.DestRegs),
 					SrcNum: int64(in.SrcNum), Srcs: trRegs(in.SrcRegs), MemWidth: int64(in.MemWidth),
 					Compress: int64(in.AddressCompress), MemAddr: in.MemAddress, Suffix1: int64(in.MemAddressSuffix1),
-					Suffix2: []int64{}, Imm: in.Immediate,
+					Addrs: []int64{}, Suffix2: []int64{}, Imm: in.Immediate,
 				}
 				if in.OpCode != nil {
 					s := in.OpCode.String()
 					q.Op = &s
+					q.OpType = int64(in.OpCode.OpcodeType())
+					q.VarType = int64(in.OpCode.VariableType())
+				}
+				// read by name: a tree without the field (reader before the repair) still builds
+				// and shows up as a monitor violation instead of a broken harness
+				if f := reflect.ValueOf(in).Elem().FieldByName("MemAddresses"); f.IsValid() {
+					for k := 0; k < f.Len(); k++ {
+						q.Addrs = append(q.Addrs, f.Index(k).Int())
+					}
 				}
 				for _, d := range in.MemAddressSuffix2 {
 					q.Suffix2 = append(q.Suffix2, int64(d))
@@ -550,11 +570,15 @@ var trOps = []string{"MOV", "S2R", "IMAD", "ISETP.GE.AND", "EXIT", "HFMA2.MMA", 
 var trNames = []string{"_Z9vectorAddPKfS0_Pfi", "_Z6kernelPf", "k", "_ZN3foo3barEv"}
 
 func trReg(rng *vh.Rng) int64 {
-	x := rng.Intn(34)
-	if x >= 32 {
-		return 255
+	switch rng.Pick(6, 2, 1, 1) {
+	case 0:
+		return int64(rng.Intn(32))
+	case 1:
+		return int64(32 + rng.Intn(223))
+	case 2:
+		return 254
 	}
-	return int64(x)
+	return 255
 }
 
 func trRegsGen(rng *vh.Rng) []int64 {
@@ -567,13 +591,15 @@ func trRegsGen(rng *vh.Rng) []int64 {
 }
 
 func trAddr(rng *vh.Rng) uint64 {
-	switch rng.Pick(6, 2, 1, 1) {
+	switch rng.Pick(6, 2, 1, 1, 1) {
 	case 0:
 		return 0x7fb0fc000000 + uint64(rng.Intn(1<<22))*4
 	case 1:
 		return rng.U64() >> 1
 	case 2:
 		return 0
+	case 3:
+		return 0x7fffffffffffffff
 	}
 	return uint64(rng.Intn(4096))
 }
@@ -639,7 +665,7 @@ func trGenInst(rng *vh.Rng, idx int, wide bool) trInst {
 		}
 		switch m.Mode {
 		case 0:
-			n := 1 + rng.Intn(5)
+			n := rng.Intn(6)
 			for i := 0; i < n; i++ {
 				m.Addrs = append(m.Addrs, trAddr(rng))
 			}
@@ -681,13 +707,16 @@ func trGenInst(rng *vh.Rng, idx int, wide bool) trInst {
 				}
 			case 5:
 				if rng.Bool() {
-					in.Dests = append(in.Dests, []int64{32, 63, 100, 254, 256, -1}[rng.Intn(6)])
+					in.Dests = append(in.Dests, []int64{256, 257, 1000, 2550, -1, 4294967296}[rng.Intn(6)])
 				} else {
-					in.Srcs = append(in.Srcs, []int64{32, 63, 100, 254, 256, -1}[rng.Intn(6)])
+					in.Srcs = append(in.Srcs, []int64{256, 257, 1000, 2550, -1, 4294967296}[rng.Intn(6)])
 				}
-			case 6:
-				if in.Mem != nil && in.Mem.Mode == 0 {
-					in.Mem.Addrs = nil
+			case 6: // addresses beyond int64
+				if in.Mem != nil {
+					in.Mem.Base = 0x8000000000000000 | rng.U64()>>uint(rng.Intn(8))
+					if in.Mem.Mode == 0 {
+						in.Mem.Addrs = append(in.Mem.Addrs, 0xffffffffffffffff, 0x8000000000000000)
+					}
 				}
 			default:
 				in.PC = rng.U64()
@@ -826,7 +855,8 @@ func trMutateLines(rng *vh.Rng, ls []trLine) []trLine {
 		case 10: // a token replaced in an instruction line
 			if i := pickT("inst"); i >= 0 && len(out[i].Toks) > 0 {
 				t := append([]string{}, out[i].Toks...)
-				t[rng.Intn(len(t))] = []string{"0", "1", "2", "3", "-1", "R1", "R32", "P0", "FADD", "0x10", "ffffffff", "+7", "12zz", "99999999999999999999"}[rng.Intn(14)]
+				t[rng.Intn(len(t))] = []string{"0", "1", "2", "3", "-1", "R1", "R256", "P0", "UR4", "FADD", "0x10", "ffffffff", "+7", "12zz",
+					"99999999999999999999", "0X1f", "0x", "0xffffffffffffffff", "0x10000000000000000", "-0x10", "0x1_0"}[rng.Intn(21)]
 				out[i].Toks = t
 			}
 		default: // a blank or comment line somewhere
